@@ -502,4 +502,13 @@ theorem C05_unknown_member_ignored (name : Str) (hne : name ≠ nm "type")
     loadItem envJson (.obj (JMembers.insertAt n name j ms)) = loadItem envJson (.obj ms) :=
   loadItem_insert_unknown envJson name j hne h n ms
 
+/-- **member order of a document**: JSON objects are unordered.  Two objects holding the same members
+in any order, of which no two are attached to the same property (a term next to its own `<term>Map` is the
+one case excluded), are read by the library's reader to values that hold the same in every property. -/
+theorem C05_member_order (sn : String) (ms ms' : JMembers)
+    (hp : (JMembers.toList ms).Perm (JMembers.toList ms'))
+    (hn : (((JMembers.toList ms).filterMap (fun p => readMember envJson sn p.1 p.2)).map Prod.fst).Nodup)
+    (f : String) : (readFields envJson sn ms').get? f = (readFields envJson sn ms).get? f :=
+  readFields_perm envJson sn ms ms' hp hn f
+
 end APModel.Deep
